@@ -2,6 +2,7 @@ package main
 
 import (
 	"runtime"
+	"strings"
 	"time"
 
 	"github.com/wkhere/bcl"
@@ -30,6 +31,8 @@ func suiteProto(c M) M {
 			script = append(script, -1)
 		case "x":
 			script = append(script, -2)
+		case "w": // a read error that WRAPS io.EOF: still an error, not the end of the input
+			script = append(script, -1000)
 		}
 	}
 	api := str(c["api"])
@@ -84,7 +87,7 @@ func suiteProto(c M) M {
 	switch {
 	case o.Class == "hang" || o.Class == "panic":
 		kind = o.Class
-	case o.Err == "scripted read error":
+	case strings.HasPrefix(o.Err, "scripted read error"):
 		kind = "read"
 	case o.Err == "combined errors from parse":
 		kind = "parse"
